@@ -144,9 +144,14 @@ func c18Run(t *c18Table, root string, v reflect.Value, cov *c18Cov, dump bool) (
 			b = &blame{what: e.what}
 			blames[e.label] = b
 		}
-		if len(b.ev) < 3 {
-			b.ev = append(b.ev, ev)
+		// one piece of evidence per kind of observation (keyed by its first word)
+		kind := strings.SplitN(ev, " ", 2)[0]
+		for _, x := range b.ev {
+			if strings.HasPrefix(x, kind+" ") {
+				return
+			}
 		}
+		b.ev = append(b.ev, ev)
 	}
 	for _, e := range g.aliases {
 		note(e, "assigned as-is at "+e.path)
@@ -175,8 +180,10 @@ func c18Run(t *c18Table, root string, v reflect.Value, cov *c18Cov, dump bool) (
 			unexplained = append(unexplained, "writing through the copy changed the original at "+m)
 		}
 	}
-	for _, x := range g.contra {
-		unexplained = append(unexplained, "tie: "+x)
+	for i, x := range g.contra {
+		if i < 3 {
+			verdicts = append(verdicts, "FAIL unexplained tie: "+x)
+		}
 	}
 	labels := make([]string, 0, len(blames))
 	for l := range blames {
